@@ -197,3 +197,21 @@ PROPS["C04"] = {
         "order-sensitive effects (assigning %{MATCHED_VAR} over several matches) are not generated",
     ],
 }
+
+PROPS["C12"] = {
+    "level": "exploration",
+    "runs": [run("TestC12", (3000, 6), (100000, 16))],
+    "rule": "cases = 2..6 rules (plus chain links) in one phase whose transformation lists are built from 1..3 shared prefixes drawn from "
+            "the full transformation vocabulary, over overlapping targets (ARGS_GET next to ARGS_GET:a, ARGS next to ARGS|!ARGS:b, regex keys, "
+            "counts, the same variable twice) and over targets whose content changes during the phase (MATCHED_VAR*, MATCHED_VARS, RULE:id, "
+            "ENV, TX) x requests with repeated names; oracle = the same transaction against the same rules with a distinct identity "
+            "transformation (registered through the plugin registry) prefixed to every list, which makes every chain id unique so nothing "
+            "can be shared; fired ids, per-rule value multisets and per-rule hit counters must agree, 4 repetitions; non-trivial = two "
+            "lists share their first transformation over overlapping collections, or a changing target is read twice",
+    "essential": {"all": ["shared-prefix-over-overlapping-targets", "changing-target-read-twice", "reads:MATCHED_VAR", "reads:RULE", "reads:ENV",
+                          "reads:MATCHED_VARS", "multimatch-control", ">=2-rules-fired"]},
+    "assumptions": COMMON_ASSUME + [
+        "MATCHED_VAR / MATCHED_VAR_NAME are read only after single-valued matches (after a multi-valued match 'the last match' depends on map order by design)",
+        "the environment variable VERIF_C12 is set by the generated rules (process-wide by design)",
+    ],
+}
